@@ -32,11 +32,11 @@
 //! Not judged: the error code of a refusal; `RegistrationExpired` events (the statement is silent;
 //! events for superseded registrations are counted as `expired_events_stale`); completeness of
 //! cookie-carrying discoveries; discoveries whose cookie/namespace do not belong together (run for
-//! panics only); with `max_stored_cookies` of 1..3 (1/6 of the cases) a chain is only judged while its
-//! cookie is among the most recent `max_stored_cookies` cookies issued or used.
+//! panics only); with `max_stored_cookies` of 1..3 (1/6 of the cases) a chained discovery is only judged
+//! when its cookie is the one issued by the immediately preceding served discovery.
 //! All TTLs accepted are >= 100 s, so no real timer fires inside a case; expiry = `force_expire` + poll.
 use std::{
-    collections::{BTreeMap, HashMap, HashSet, VecDeque},
+    collections::{BTreeMap, HashMap, HashSet},
     sync::OnceLock,
     task::{Context, Poll},
 };
@@ -94,21 +94,18 @@ struct Model {
     live: BTreeMap<(usize, usize), (u64, u64)>, // (peer, ns) -> (generation, handle)
     dead: HashMap<u64, (Dead, u64, (usize, usize))>, // generation -> (why, handle, key)
     chains: HashMap<Vec<u8>, Chain>,
-    recency: VecDeque<Vec<u8>>, // most recent first (only consulted when cfg.cookies is Some)
+    /// cookie returned by the most recent served discovery (only consulted when cfg.cookies is Some)
+    last_cookie: Option<Vec<u8>>,
 }
 impl Model {
     fn peer_count(&self, p: usize) -> usize {
         self.live.keys().filter(|k| k.0 == p).count()
     }
-    fn touch(&mut self, c: &[u8], cap: Option<usize>) {
-        if let Some(cap) = cap {
-            self.recency.retain(|x| x != c);
-            self.recency.push_front(c.to_vec());
-            self.recency.truncate(cap);
-        }
-    }
+    /// May the chain of cookie `c` be judged? With the default cookie store (10 000 entries) always;
+    /// with a tiny store only the cookie issued by the immediately preceding served discovery is
+    /// certain to be still stored (nothing was inserted after it).
     fn cookie_live(&self, c: &[u8], cap: Option<usize>) -> bool {
-        self.chains.contains_key(c) && (cap.is_none() || self.recency.iter().any(|x| x == c))
+        self.chains.contains_key(c) && (cap.is_none() || self.last_cookie.as_deref() == Some(c))
     }
 }
 
@@ -174,7 +171,7 @@ fn run_case(check: &Check, rng: &mut Rng, max_ops: u64) {
         rc = rc.with_max_stored_cookies(c);
     }
     let mut regs = Regs::new(rc);
-    let mut m = Model { live: BTreeMap::new(), dead: HashMap::new(), chains: HashMap::new(), recency: VecDeque::new() };
+    let mut m = Model { live: BTreeMap::new(), dead: HashMap::new(), chains: HashMap::new(), last_cookie: None };
     let mut case = Case { check, cfg: cfg.clone(), log: vec![], violated: false };
     let mut next_gen = 1u64;
     let nops = rng.range(8, max_ops);
@@ -327,9 +324,9 @@ fn run_case(check: &Check, rng: &mut Rng, max_ops: u64) {
                 let use_cookie = !last && !known.is_empty() && rng.chance(3, 5);
                 let (cookie_wire, mut filter) = if use_cookie {
                     // prefer recent cookies so that chains grow
-                    let recent: Vec<&Vec<u8>> = m.recency.iter().filter(|c| m.chains.contains_key(*c)).collect();
+                    let recent: Vec<&Vec<u8>> = m.last_cookie.iter().filter(|c| m.chains.contains_key(*c)).collect();
                     let c = if cfg.cookies.is_some() && !recent.is_empty() && rng.chance(3, 4) {
-                        recent[rng.usize(recent.len())].clone()
+                        recent[0].clone()
                     } else {
                         known[rng.usize(known.len())].clone()
                     };
@@ -370,12 +367,6 @@ fn run_case(check: &Check, rng: &mut Rng, max_ops: u64) {
                         break;
                     }
                 };
-                if let (Some(c), true) = (&cookie_wire, res.is_ok()) {
-                    // a served discovery marks the presented cookie as recently used (if still stored)
-                    if m.cookie_live(c, cfg.cookies) {
-                        m.touch(c, cfg.cookies);
-                    }
-                }
                 let fname = filter.map(|i| cfg.namespaces[i]);
                 match res {
                     Err(()) => {
@@ -388,9 +379,10 @@ fn run_case(check: &Check, rng: &mut Rng, max_ops: u64) {
                     Ok((list, new_cookie)) => {
                         let gens: Vec<Option<u64>> = list.iter().map(generation_of).collect();
                         case.log.push(format!(
-                            "discover ns={fname:?} cookie={:?} limit={limit:?} -> gens {:?}",
+                            "discover ns={fname:?} cookie={:?} limit={limit:?} -> gens {:?} new cookie {}",
                             cookie_wire.as_ref().map(|c| vmon::hex(c)),
-                            gens.iter().map(|g| g.map(|x| x as i64).unwrap_or(-1)).collect::<Vec<_>>()
+                            gens.iter().map(|g| g.map(|x| x as i64).unwrap_or(-1)).collect::<Vec<_>>(),
+                            vmon::hex(&new_cookie.clone().into_wire_encoding())
                         ));
                         if use_cookie {
                             chained += judged_chain as u64;
@@ -484,7 +476,7 @@ fn run_case(check: &Check, rng: &mut Rng, max_ops: u64) {
                         if !mismatch {
                             m.chains.insert(wire.clone(), Chain { seen, filter });
                         }
-                        m.touch(&wire, cfg.cookies);
+                        m.last_cookie = Some(wire);
                         sig.push_u64(0x200 | (use_cookie as u64) << 6 | (returned.len() as u64) << 8 | filter.map(|f| f as u64 + 1).unwrap_or(0));
                     }
                 }
